@@ -33,6 +33,16 @@ CASES = [
      "loop form of the grounded restriction restarts from the unrestricted condition"),
     ("a10", "lib/src/adf.rs", "fn grounded_internal(", "                if ac.is_truth_value() {\n                    t_vals += 1;\n                }", "                t_vals += 1;", ["C01"],
      "loop form: the progress counter is bumped for every condition"),
+    ("c02", "lib/src/parser.rs", "fn binary_connective", "combine(Box::new(lhs), Box::new(rhs))", "combine(Box::new(rhs), Box::new(lhs))", ["C08"],
+     "the shared connective parser hands the operands over in swapped order"),
+    ("c02", "lib/src/parser.rs", "fn and(", 'AdfParser::binary_connective("and", Formula::And, input)', 'AdfParser::binary_connective("and", Formula::Or, input)', ["C08"],
+     "keyword and is wired to the variant Or through the shared helper"),
+    ("c02", "lib/src/parser.rs", "fn imp(", 'AdfParser::binary_connective("imp", Formula::Imp, input)', 'AdfParser::binary_connective("impl", Formula::Imp, input)', ["C08"],
+     "keyword imp is misspelt in the call of the shared helper"),
+    ("c09", "server/src/adf.rs", "fn for_strategy(", "Strategy::Ground => &self.ground,", "Strategy::Ground => &self.complete,", ["C16"],
+     "the inlined accessor answers 'already solved' for Ground from the Complete slot"),
+    ("c09", "server/src/adf.rs", "fn db_field(", 'Strategy::Stable => "acs_per_strategy.stable",', 'Strategy::Stable => "acs_per_strategy.stable_nogood",', ["C16"],
+     "the inlined key table stores Stable results under the StableNogood key"),
     ("b04", "lib/src/obdd/frontend.rs", "fn forward_node(", "send.send(node)", "send.try_send(node)", ["C19"],
      "the extracted relay step uses try_send"),
 ]
